@@ -34,6 +34,7 @@ func c10SymPath(label string, maxSegs int) string {
 type c10Fetcher struct{}
 
 var c10AbsIntoWorkdir bool
+var c10Unreadable bool // the rule file cannot be read to the end: the package must be refused
 var c10Bad bool       // the fetched tree holds an escaping / dangling link or a special file
 var c10WorkDir string // where the package was fetched to
 
@@ -56,7 +57,7 @@ func (c10Fetcher) FetchSourcePackage(ctx context.Context, sourceType string, u *
 			dirs = append(dirs, p)
 		case 2:
 			t := c10SymPath("target", verif.Param("sLink", 3))
-			if verif.Bool("target.into-workdir") {
+			if verif.Param("intoWorkdir", 0) == 1 && verif.Bool("target.into-workdir") {
 				// an absolute target that names something inside the directory the package was
 				// fetched into (which is not where the package ends up)
 				t = targetDir + "/" + t
@@ -137,7 +138,19 @@ type c10RulesFetcher struct{}
 func (c10RulesFetcher) FetchSourcePackage(ctx context.Context, sourceType string, u *url.URL, targetDir string) (FetchSourcePackageResponse, error) {
 	envMkdir(targetDir+"/c", 0755, 1000)
 	rulesFifo := verif.Bool("rules.fifo")
-	if rulesFifo {
+	rulesLong := false
+	if verif.Param("longLine", 0) == 1 && !rulesFifo && verif.Bool("rules.long-line") {
+		// a rule file with a comment line of 65536 bytes (the line scanner's limit) before the rules:
+		// it cannot be read, so the package must be refused - not accepted with the later rules dropped
+		long := "x"
+		for i := 0; i < 16; i++ {
+			long += long
+		}
+		envWriteFile(targetDir+"/.terraformignore", 0644, 1000, "#"+long+"\n*.log\n/top.txt\ng\nd/\n")
+		rulesLong = true
+	}
+	if rulesLong {
+	} else if rulesFifo {
 		// the rule file is a special file: the package must be refused (and the fifo never opened)
 		envMkfifo(targetDir + "/.terraformignore")
 	} else if verif.Bool("rules.via-link") {
@@ -154,6 +167,12 @@ func (c10RulesFetcher) FetchSourcePackage(ctx context.Context, sourceType string
 	envWriteFile(targetDir+"/c/g", 0644, 1000, "G") // excluded, and nameable by the symbolic link target
 	envMkdir(targetDir+"/c/d", 0755, 1000)          // an excluded directory with a file
 	envWriteFile(targetDir+"/c/d/f", 0644, 1000, "DF")
+	// excluded directories nested below one that is judged path by path (the built-in .terraform
+	// rule is followed by the negation for .terraform/modules): nothing in them is kept
+	envMkdir(targetDir+"/.terraform", 0755, 1000)
+	envMkdir(targetDir+"/.terraform/p", 0755, 1000)
+	envMkdir(targetDir+"/.terraform/p/q", 0755, 1000)
+	envWriteFile(targetDir+"/.terraform/p/q/f", 0644, 1000, "PQF")
 	t := c10SymPath("target", verif.Param("sLink", 3))
 	lname := []string{"/c/z", "/c/0"}[verif.Choose("link.name", 2)] // walked after / before the excluded entries
 	envSymlink(targetDir+lname, t, 1000)
@@ -162,6 +181,9 @@ func (c10RulesFetcher) FetchSourcePackage(ctx context.Context, sourceType string
 	defer func() {
 		if rulesFifo {
 			c10Bad = true
+		}
+		if rulesLong {
+			c10Unreadable = true
 		}
 	}()
 	c10Bad = real == "" || !(real == realRoot || wHasPrefix(real, realRoot+"/"))
@@ -178,6 +200,7 @@ func (c10RulesFetcher) FetchSourcePackage(ctx context.Context, sourceType string
 
 func HarnessC10Rules() {
 	wReset(1, 0, 0)
+	c10Unreadable = false
 	envWriteFile("/w/secret", 0600, 100, "X")
 	c10Bad = false
 	target := wTarget
@@ -203,9 +226,10 @@ func HarnessC10Rules() {
 	}
 	verif.Reach("built")
 	verif.Assert("C10-bad-package-makes-the-build-fail", !c10Bad)
+	verif.Assert("C10-unreadable-rule-file-makes-the-build-fail", !c10Unreadable)
 	dir, _ := bundle.LocalPathForRemoteSource(src)
 	for _, n := range envSnapshot(dir) {
-		verif.Assert("C10-everything-excluded-is-removed", !(len(n.Path) > 4 && n.Path[len(n.Path)-4:] == ".log") && n.Path != "top.txt" && n.Path != "c/g" && !wHasPrefix(n.Path, "c/d"))
+		verif.Assert("C10-everything-excluded-is-removed", !(len(n.Path) > 4 && n.Path[len(n.Path)-4:] == ".log") && n.Path != "top.txt" && n.Path != "c/g" && !wHasPrefix(n.Path, "c/d") && !wHasPrefix(n.Path, ".terraform"))
 		if n.Kind == envLink {
 			verif.Reach("link-kept")
 			real := envRealPath(dir + "/" + n.Path)
